@@ -277,3 +277,35 @@ def rule_drop_order(ctx, facts, rule):
         ctx.check(ok2, rule, SPAN_DROP, fn.loc(com[0]),
                   "a root span (collect_id = Some) always commits its trace when dropped", "",
                   "collect_id=Some edge can return at bb%s without commit_collect" % wit, extra="commit")
+
+
+def rule_noop_only_without_parent(ctx, facts, rule):
+    """Span::enter_with_parents answers with a no-op span only when *no* parent records: every path to the no-op result crosses
+    the `token.is_empty()` edge of the token collected from all parents. (Deciding from the first parent, or from the parents'
+    sampling flags, drops a span that some parent's trace must receive -- and a child of an unsampled span is still a span of
+    that trace: it carries the trace's id and decision on, and opens its own scope.)"""
+    fn = ctx.need_fn(facts, "fastrace::span::Span::enter_with_parents", rule)
+    if fn is None:
+        return
+    prov = Prov(facts)
+    noops = [b for b in fn.calls_re(r"fastrace::span::Span::noop$", cleanup=False)]
+    noops += [b for b, blk in enumerate(fn.blocks) if not blk["cleanup"] for st in blk["stmts"]
+              if st["k"] == "assign" and st["rv"]["k"] == "agg" and st["rv"].get("adt") == "fastrace::span::Span"
+              and any(o.kind == "agg" and str(o.key).endswith("Option::None") for op in st["rv"]["ops"][:1] for o in prov.of_operand(fn, op))]
+    if not noops:
+        ctx.ok(rule, fn.path, fn.span, "enter_with_parents never answers with a no-op span of its own accord", "", extra="noop-only-empty")
+        return
+
+    def empty_tok(o):
+        return any(v[0] == "call" and v[1].endswith("::is_empty") for v in o.via) and \
+            any(v[0] == "call" and re.search(r"Iterator>?::collect$|FromIterator", v[1]) for v in o.via)
+    e = bool_cond_edges(fn, prov, empty_tok, True)
+    whole = False
+    for b in fn.calls_re(r"::is_empty$", cleanup=False):
+        src = prov.of_operand(fn, fn.term(b)["args"][0])
+        whole = whole or any(o.kind == "param" and o.key == 2 for o in src)
+    ctx.check(bool(e) and whole and fn.guarded(noops, e), rule, fn.path, fn.loc(noops[0]),
+              "enter_with_parents returns a no-op span only when the token collected from all parents is empty",
+              "no-op sites %s guarded by is_empty edges %s" % (noops, sorted((a, d) for a, d, _ in e)),
+              "a no-op span is returned at %s without crossing the `token.is_empty()` edge: a span with a recording parent is dropped "
+              "for that parent's trace (and no context / scope exists for it)" % [fn.loc(b) for b in noops], extra="noop-only-empty")
